@@ -122,6 +122,7 @@ class State:
         self.reached = []
         self.notes = {}
         self.choices = ()
+        self.otype = {}
 
     def fork(self):
         s = State()
@@ -136,6 +137,7 @@ class State:
         s.reached = list(self.reached)
         s.notes = dict(self.notes)
         s.choices = self.choices
+        s.otype = dict(self.otype)
         return s
 
     def top(self):
@@ -145,10 +147,12 @@ class State:
             self.frames[-1] = f
         return f
 
-    def alloc(self, val, label=None):
+    def alloc(self, val, label=None, typ=None):
         self.nobj += 1
         oid = "o%d" % self.nobj if label is None else "%s#%d" % (label, self.nobj)
         self.mem[oid] = val
+        if typ is not None:
+            self.otype[oid] = typ
         return oid
 
 
@@ -171,6 +175,9 @@ class Engine:
         self.solver = z3.Solver()
         self.solver.set("timeout", int(self.opts.get("timeout_ms", 60000)))
         self.sstack = []          # conjuncts currently pushed
+        self.oneshot = bool(self.opts.get("oneshot", False))
+        self.timeout_ms = int(self.opts.get("timeout_ms", 60000))
+        self.last_solver = self.solver
         self.queries = 0
         self.nontrivial = 0
         self.solver_s = 0.0
@@ -180,7 +187,7 @@ class Engine:
         self.unknowns = []
         self.reach = {}
         self.final_states = []
-        self.max_iters = int(self.opts.get("unwind", 64))
+        self.max_iters = int(self.opts.get("unwind", 4096))
         self.max_steps = int(self.opts.get("max_steps", 200_000_000))
         self.known = set(self.opts.get("known_findings", ()))
         self.choice_fix = dict(self.opts.get("choices", {}))
@@ -197,6 +204,9 @@ class Engine:
         self.assert_sites = {}
         self.bcache = {}
         self.bkeep = []
+        self.merge_funcs = set(self.opts.get('merge_funcs', ()))
+        self.merge_depth = 0
+        self.merges = 0
         self.choice_prefix = list(self.opts.get('choice_prefix', ()))
         self.probe_depth = self.opts.get('probe_depth')
         self.probe_out = []
@@ -218,15 +228,28 @@ class Engine:
 
     def check(self, st, extra=None, nontrivial=False):
         """returns 'sat' | 'unsat' | 'unknown' for pc ∧ extra"""
-        self._sync(st.pc)
         t0 = time.time()
         self.queries += 1
         if nontrivial:
             self.nontrivial += 1
-        if extra is None:
-            r = self.solver.check()
+        if self.oneshot:
+            # a fresh solver per query lets z3 pick its tactic-based (bit-blasting) procedure instead of the
+            # incremental core, which is much slower on wide bit-vector arithmetic
+            sol = z3.Solver()
+            sol.set("timeout", self.timeout_ms)
+            for c in st.pc:
+                sol.add(c)
+            if extra is not None:
+                sol.add(extra)
+            r = sol.check()
+            self.last_solver = sol
         else:
-            r = self.solver.check(extra)
+            self._sync(st.pc)
+            if extra is None:
+                r = self.solver.check()
+            else:
+                r = self.solver.check(extra)
+            self.last_solver = self.solver
         self.solver_s += time.time() - t0
         if r == z3.sat:
             return "sat"
@@ -235,7 +258,7 @@ class Engine:
         return "unknown"
 
     def model_vals(self, st):
-        m = self.solver.model()
+        m = self.last_solver.model()
         out = []
         for name, term, bits in st.nondet:
             if type(term) in (int, bool):
@@ -323,6 +346,13 @@ class Engine:
         cond = simp(cond)
         if type(cond) is bool:
             return [(st, cond)]
+        if self.merge_depth and self.opts.get("lazy_feasibility", False):
+            # inside a merge-enabled function feasibility checks are pure overhead: both successors are explored and
+            # meet again at the next merge point (an infeasible one contributes an unsatisfiable guard)
+            s2 = st.fork()
+            st.pc.append(cond)
+            s2.pc.append(z3.Not(cond))
+            return [(st, True), (s2, False)]
         cid = cond.get_id()
         ent = self.bcache.get(cid)
         if ent is not None:
@@ -357,11 +387,44 @@ class Engine:
         r = self.check(st)
         if r != "sat":
             return None
-        v = self.solver.model().eval(term, model_completion=True).as_long()
+        v = self.last_solver.model().eval(term, model_completion=True).as_long()
         r = self.check(st, term != v)
         if r == "unsat":
             return v
         return None
+
+    def fork_values(self, st, fr, term, pos, what, bits=64):
+        """case split: re-execute the current instruction once per feasible value of term (<= 40 values)"""
+        vals = self.enumerate_values(st, term, 40)
+        if vals is None:
+            raise EngineError("%s: symbolic with more than 40 feasible values at %s" % (what, pos))
+        if not vals:
+            st.status = "dead"
+            return []
+        fr.ip -= 1
+        forks = []
+        for i, v in enumerate(vals):
+            s2 = st if i == len(vals) - 1 else st.fork()
+            s2.pc.append(bv(term, bits) == v)
+            if s2 is not st:
+                s2.top().ip = fr.ip
+                forks.append(s2)
+        return forks
+
+    def enumerate_values(self, st, term, limit):
+        vals = []
+        self._sync(st.pc)
+        extra = []
+        while True:
+            self.queries += 1
+            r = self.solver.check(*extra) if extra else self.solver.check()
+            if r == z3.unsat:
+                return vals
+            if r != z3.sat or len(vals) >= limit:
+                return None
+            v = self.solver.model().eval(term, model_completion=True).as_long()
+            vals.append(v)
+            extra.append(term != v)
 
     # ------------------------------------------------------------------ memory
     def load_path(self, val, path, st, pos, bits=None):
@@ -583,6 +646,7 @@ class Engine:
                 raise EngineError("unknown global " + name)
             z = self.intr.foreign_global(self, st, name, g)
             st.mem[oid] = z
+            st.otype[oid] = g["t"]
         return oid
 
     # ------------------------------------------------------------------ running
@@ -591,19 +655,23 @@ class Engine:
         if self.init_state is not None:
             st.mem = dict(self.init_state.mem)
             st.nobj = self.init_state.nobj
+            st.otype = dict(self.init_state.otype)
         self.push_call(st, fname, list(args), None)
         return st
 
     def run_init(self):
         """execute the main package's init concretely; result becomes the template memory"""
         name = self.p.main + ".init"
+        saved_iters, self.max_iters = self.max_iters, 1 << 20      # init is concrete: no unwinding bound needed
         st = State()
         # init guard must be false
         self.push_call(st, name, [], None)
         done = self.explore([st], init=True)
         if len(done) != 1 or done[0].status != "done":
-            raise EngineError("package init did not run to a single completion (%d states, %s)" % (
-                len(done), [d.status + ":" + str(d.info) for d in done]))
+            raise EngineError("package init did not run to a single completion (%d states, %s; obligations failed: %s)" % (
+                len(done), [d.status + ":" + str(d.info) for d in done],
+                [(o.kind, o.msg, o.pos) for o in (self.violations + self.unknowns)[:4]]))
+        self.max_iters = saved_iters
         self.init_state = done[0]
         self.init_state.frames = []
 
@@ -671,6 +739,11 @@ class Engine:
             if fr.ip >= blk["ninstr"]:
                 raise EngineError("fell off block")
             ins = blk["ins"][fr.ip]
+            if fr.tag == "head" and ins["op"] != "phi":
+                fr.tag = None
+                if self.merge_depth:
+                    st.status = "parked"
+                    return []
             fr.ip += 1
             self.steps += 1
             st.steps += 1
@@ -700,6 +773,8 @@ class Engine:
                             fr.fn.get("pos"))
                 st.status = "dead"
                 return
+        if target <= fr.blk and fr.fn["name"] in self.merge_funcs:
+            fr.tag = "head"         # park at the first non-phi instruction of the loop head (state merging)
         fr.prev = fr.blk
         fr.blk = target
         fr.ip = 0
@@ -844,6 +919,8 @@ class Engine:
             if dest is not None and st.status == "run":
                 fr.env[dest] = out
             return
+        if name in self.merge_funcs and not self.merge_depth:
+            return self.call_merged(st, fr, callee, args, dest, ins)
         fn = self.p.funcs.get(name)
         if fn is None:
             if name.endswith(".init"):
@@ -853,6 +930,219 @@ class Engine:
         if callee.bindings:
             for fv, b in zip(fn["freevars"], callee.bindings):
                 nfr.env[fv["n"]] = b
+
+    # ------------------------------------------------------------------ state merging
+    def call_merged(self, st, fr, callee, args, dest, ins):
+        """run a merge-enabled function as a sub-exploration: states are parked at loop heads and merged per
+        iteration; returns the states that returned from the function (as forks of st)."""
+        name = callee.name
+        depth = len(st.frames)
+        nfr = self.push_call(st, name, list(args), dest)
+        fn = self.p.funcs[name]
+        if callee.bindings:
+            for fv, b in zip(fn["freevars"], callee.bindings):
+                nfr.env[fv["n"]] = b
+        self.merge_depth += 1
+        active = [st]
+        returned = []
+        try:
+            while active:
+                parked = {}
+                while active:
+                    s = active.pop()
+                    while s.status == "run" and len(s.frames) > depth:
+                        forks = self.run_until(s, depth)
+                        active.extend(forks)
+                    if s.status == "parked":
+                        f = s.frames[-1]
+                        key = (len(s.frames), f.fn["name"], f.blk, f.ip, tuple(sorted((f.iters or {}).items())))
+                        parked.setdefault(key, []).append(s)
+                    elif s.status == "run":
+                        returned.append(s)
+                    elif s.status in ("done", "panic"):
+                        returned.append(s)
+                for key, group in parked.items():
+                    for m in self.merge_group(group):
+                        m.status = "run"
+                        active.append(m)
+        finally:
+            self.merge_depth -= 1
+        if self.opts.get("merge_returns", True) and len(returned) > 1:
+            live = [s for s in returned if s.status == "run"]
+            rest = [s for s in returned if s.status != "run"]
+            returned = self.merge_group(live) + rest
+        if st not in returned:
+            st.status = "dead"
+        return [s for s in returned if s is not st]
+
+    def run_until(self, st, depth):
+        """like run_state but stops as soon as the frame stack is back to `depth`"""
+        while st.status == "run" and len(st.frames) > depth:
+            fr = st.top()
+            blk = fr.fn["blocks"][fr.blk]
+            ins = blk["ins"][fr.ip]
+            if fr.tag == "head" and ins["op"] != "phi":
+                fr.tag = None
+                st.status = "parked"
+                return []
+            fr.ip += 1
+            self.steps += 1
+            st.steps += 1
+            h = getattr(self, "op_" + ins["op"], None)
+            if h is None:
+                raise EngineError("unsupported instruction " + ins["op"])
+            forks = h(st, fr, ins)
+            if forks:
+                return forks
+        return []
+
+    def merge_group(self, group):
+        out = []
+        for s in group:
+            done = False
+            for i, acc in enumerate(out):
+                m = self.try_merge(acc, s)
+                if m is not None:
+                    out[i] = m
+                    done = True
+                    self.merges += 1
+                    break
+            if not done:
+                out.append(s)
+        return out
+
+    def regtype(self, fn, reg):
+        rt = fn.get("_regt")
+        if rt is None:
+            rt = {}
+            for p in fn["params"] + fn["freevars"]:
+                rt[p["n"]] = p["t"]
+            for b in fn["blocks"]:
+                for i in b["ins"]:
+                    if "r" in i and i.get("t"):
+                        rt[i["r"]] = i["t"]
+            fn["_regt"] = rt
+        return rt.get(reg)
+
+    def ite_typed(self, c, a, b, tid):
+        """ite over values of a known type; raises EngineError when the two values cannot be merged"""
+        if a is b:
+            return a
+        if type(tid) is tuple:      # ("arr", elem type)
+            if len(a) != len(b):
+                raise EngineError("merge: arrays of different length")
+            return tuple(self.ite_typed(c, x, y, tid[1]) for x, y in zip(a, b))
+        t = self.p.types[tid] if tid is not None else None
+        k = t["k"] if t else None
+        if k in ("int", "float"):
+            if type(a) is int and type(b) is int and a == b:
+                return a
+            return z3.If(c, bv(a, t["bits"]), bv(b, t["bits"]))
+        if k == "bool":
+            if type(a) is bool and type(b) is bool and a == b:
+                return a
+            return z3.If(c, bl(a), bl(b))
+        if k == "struct":
+            return tuple(self.ite_typed(c, x, y, f["t"]) for x, y, f in zip(a, b, t["fields"]))
+        if k == "array":
+            return tuple(self.ite_typed(c, x, y, t["elem"]) for x, y in zip(a, b))
+        if k == "tuple":
+            return tuple(self.ite_typed(c, x, y, e) for x, y, e in zip(a, b, t["elems"]))
+        if k == "iface" or isinstance(a, IfaceV):
+            if a.tid == b.tid and (a.val is b.val or (isinstance(a.val, ErrV) and isinstance(b.val, ErrV) and a.val.ident == b.val.ident)):
+                return a
+            if a.tid is not None and a.tid == b.tid and not isinstance(a.val, ErrV):
+                return IfaceV(a.tid, self.ite_typed(c, a.val, b.val, a.tid if a.tid in self.p.types else None))
+            raise EngineError("merge: different interface values")
+        if isinstance(a, (SliceV, StrV, PtrV)):
+            return self.ite_val(c, a, b, 64)
+        if isinstance(a, (MapV, ChanV)):
+            if a.obj == b.obj:
+                return a
+            raise EngineError("merge: different map/chan")
+        if isinstance(a, FuncV):
+            if a.name == b.name and len(a.bindings) == len(b.bindings) and all(x is y for x, y in zip(a.bindings, b.bindings)):
+                return a
+            raise EngineError("merge: different closures")
+        if a is None and b is None:
+            return None
+        if t is None:
+            return self.ite_val(c, a, b, None)
+        raise EngineError("merge: unsupported value kind %s" % k)
+
+    def try_merge(self, a, b):
+        """merge state b into a (same program point, same stack). Returns the merged state or None if refused."""
+        try:
+            if len(a.frames) != len(b.frames):
+                return None
+            if len(a.nondet) != len(b.nondet) or any(x[1] is not y[1] and not (type(x[1]) is int and x[1] == y[1]) for x, y in zip(a.nondet, b.nondet)):
+                return None
+            n = 0
+            m = min(len(a.pc), len(b.pc))
+            while n < m and a.pc[n] is b.pc[n]:
+                n += 1
+            ra, rb = a.pc[n:], b.pc[n:]
+            ga = z3.And(ra) if len(ra) != 1 else ra[0]
+            gb = z3.And(rb) if len(rb) != 1 else rb[0]
+            if not ra or not rb:
+                return None
+            # frames below the top are untouched during the sub-exploration of the merged function's callees?  They may
+            # differ if the merged function called (non-merged) callees that returned; only the top frame is live here.
+            fa, fb = a.frames[-1], b.frames[-1]
+            if fa.fn is not fb.fn or fa.blk != fb.blk or fa.ip != fb.ip:
+                return None
+            env = {}
+            fn = fa.fn
+            for r in set(fa.env) | set(fb.env):
+                if r in fa.env and r in fb.env:
+                    va, vb = fa.env[r], fb.env[r]
+                    if va is vb:
+                        env[r] = va
+                    else:
+                        env[r] = self.ite_typed(gb, vb, va, self.regtype(fn, r))
+                else:
+                    env[r] = fa.env.get(r, fb.env.get(r))
+            for i in range(len(a.frames) - 1):
+                xa, xb = a.frames[i], b.frames[i]
+                if xa is xb:
+                    continue
+                if xa.fn is not xb.fn or xa.blk != xb.blk or xa.ip != xb.ip:
+                    return None
+                for r in set(xa.env) | set(xb.env):
+                    if xa.env.get(r) is not xb.env.get(r):
+                        va, vb = xa.env.get(r), xb.env.get(r)
+                        if type(va) in (int, bool) and va == vb:
+                            continue
+                        return None
+            mem = {}
+            for k in set(a.mem) | set(b.mem):
+                if k in a.mem and k in b.mem:
+                    va, vb = a.mem[k], b.mem[k]
+                    if va is vb:
+                        mem[k] = va
+                    else:
+                        mem[k] = self.ite_typed(gb, vb, va, a.otype.get(k, b.otype.get(k)))
+                else:
+                    mem[k] = a.mem.get(k, b.mem.get(k))
+            s = a.fork()
+            s.mem = mem
+            top = fa.copy(s.id)
+            top.env = env
+            its = dict(fa.iters or {})
+            for k2, v2 in (fb.iters or {}).items():
+                its[k2] = max(its.get(k2, 0), v2)
+            top.iters = its or None
+            s.frames[-1] = top
+            s.pc = a.pc[:n] + [z3.Or(ga, gb)]
+            s.nobj = max(a.nobj, b.nobj)
+            ot = dict(b.otype)
+            ot.update(a.otype)
+            s.otype = ot
+            s.reached = list(dict.fromkeys(a.reached + b.reached))
+            s.steps = max(a.steps, b.steps)
+            return s
+        except EngineError:
+            return None
 
     # ------------------------------------------------------------------ builtins
     def builtin(self, st, fr, name, args, ins):
@@ -963,7 +1253,7 @@ class Engine:
 
     # ------------------------------------------------------------------ data ops
     def op_alloc(self, st, fr, ins):
-        oid = st.alloc(self.p.zero(ins["et"]))
+        oid = st.alloc(self.p.zero(ins["et"]), typ=ins["et"])
         fr.env[ins["r"]] = PtrV(oid, ())
 
     def op_store(self, st, fr, ins):
@@ -1475,7 +1765,7 @@ class Engine:
                 return
             c = self.concretize(st, ln)
             if c is None:
-                raise EngineError("make with non-unique symbolic length at %s" % pos)
+                return self.fork_values(st, fr, ln, pos, "make length")
             ln = c
         if type(cp) is not int:
             c = self.concretize(st, cp)
@@ -1487,7 +1777,7 @@ class Engine:
             st.status = "dead"
             return
         et = self.p.types[ins["t"]]["elem"]
-        oid = st.alloc((self.p.zero(et),) * cp)
+        oid = st.alloc((self.p.zero(et),) * cp, typ=("arr", et))
         fr.env[ins["r"]] = SliceV(oid, (), 0, ln, cp)
 
     def op_slice(self, st, fr, ins):
@@ -1524,6 +1814,15 @@ class Engine:
             return
         lo = simp(lo)
         hi = simp(hi)
+        for term, what in ((lo, "slice low bound"), (hi, "slice high bound")):
+            if type(term) is not int:
+                c = self.concretize(st, term)
+                if c is None:
+                    return self.fork_values(st, fr, term, pos, what)
+        if type(lo) is not int:
+            lo = self.concretize(st, lo)
+        if type(hi) is not int:
+            hi = self.concretize(st, hi)
         nl = self.sub64(hi, lo)
         if k == "string":
             fr.env[ins["r"]] = StrV(base.obj, base.path, self.add64(base.off, lo), nl)
